@@ -4,7 +4,7 @@
    [wf] says: digits are digits, there is an integer part or a fraction, the unit does not start with a digit or '.'.
    float() is any function with [binary64_like] (error bound of binary64 round-to-nearest, sign preserving);
    the executable [dbl_exec] is compared bit-for-bit with CPython by harness/props/c17.py.                     *)
-From Coq Require Import QArith Qabs.
+From Coq Require Import QArith Qabs Qround.
 From CssV Require Import Base Regex Numbers NumbersFacts Colors ColorsFacts Gen.NumConsts Gen.Colors.
 Local Open Scope Q_scope.
 
@@ -71,6 +71,53 @@ Proof.
   apply orb_true_iff in H. destruct H as [H|H]; [left; symmetry; now apply eqs_spec|right; auto].
 Qed.
 Print Assumptions zero_units_are_lengths.
+
+(* ---------------------------------------------------------------- binary64 discharged *)
+(* the executable rounding function (integer arithmetic, compared bit-for-bit with CPython's float() by the harness)
+   has the properties the number theorems assume: no hypothesis about floating point is left *)
+Theorem dbl_exec_is_binary64 : binary64_like dbl_exec.
+Proof. exact dbl_exec_binary64. Qed.
+Print Assumptions dbl_exec_is_binary64.
+
+(* ... and it is exact on every representable value m * 2^e, |m| < 2^53, e >= -1074 *)
+Theorem dbl_exec_exact_on_representables : forall m e,
+  (Z.abs m < 2 ^ 53)%Z -> (-1074 <= e)%Z -> dbl_exec (inject_Z m * two ^ e) == inject_Z m * two ^ e.
+Proof. exact dbl_exec_exact. Qed.
+Print Assumptions dbl_exec_exact_on_representables.
+
+Theorem number_parse_exact_exec : forall lx,
+  wf lx -> Qabs (lex_Q lx) <= maxq ->
+  parse_num dbl_exec (render lx) = Some (lx, to_value dbl_exec lx) /\
+  (lfrac lx = None -> to_value dbl_exec lx = PyInt (lex_num lx) /\ pyq (to_value dbl_exec lx) == lex_Q lx) /\
+  (lfrac lx <> None -> to_value dbl_exec lx = PyFloat (dbl_exec (lex_Q lx))) /\
+  Qabs (pyq (to_value dbl_exec lx) - lex_Q lx) <= Qabs (lex_Q lx) * eps53 + tiny.
+Proof. intros lx. exact (number_parse_exact dbl_exec lx dbl_exec_binary64). Qed.
+Print Assumptions number_parse_exact_exec.
+
+Theorem number_roundtrip_exec : forall lx olz,
+  wf lx -> Qabs (lex_Q lx) <= roundtrip_range ->
+  exists lx' v',
+    roundtrip dbl_exec olz lx = Some (lx', v') /\
+    Qabs (pyq v' - lex_Q lx) <= (1 # 2000000) + Qabs (lex_Q lx) * (1 # 2251799813685248) + (1 # 100000000000000000000) /\
+    (lunit lx' = lunit lx \/
+     (pyq (to_value dbl_exec lx) == 0 /\ mem_s (lunit lx) zero_units = true /\ lunit lx' = [])).
+Proof. intros lx olz. exact (number_roundtrip dbl_exec lx olz dbl_exec_binary64). Qed.
+Print Assumptions number_roundtrip_exec.
+
+Theorem six_digits_exact_exec : forall lx olz,
+  wf lx -> (length (frac_digits lx) <= 6)%nat -> Qabs (lex_Q lx) <= inject_Z (10 ^ 9) ->
+  exists lx' v',
+    roundtrip dbl_exec olz lx = Some (lx', v') /\
+    lex_Q lx' == lex_Q lx /\
+    pyq v' == pyq (to_value dbl_exec lx) /\
+    (lunit lx' = lunit lx \/
+     (pyq (to_value dbl_exec lx) == 0 /\ mem_s (lunit lx) zero_units = true /\ lunit lx' = [])).
+Proof. intros lx olz. exact (six_digits_exact dbl_exec lx olz dbl_exec_binary64). Qed.
+Print Assumptions six_digits_exact_exec.
+
+Example dbl_exec_examples :
+  dbl_exec (1 # 10) = 3602879701896397 # 36028797018963968 /\ dbl_exec (1 # 2) = 1 # 2 /\ dbl_exec (- (3 # 4)) = - (3 # 4).
+Proof. vm_compute. repeat split. Qed.
 
 (* the hypotheses are satisfiable, the lexemes exist, and the executable binary64 gives the expected texts *)
 Example binary64_like_inhabited : binary64_like (fun q => q).
@@ -147,6 +194,52 @@ Theorem hsl_algorithm_is_css3 : forall h sat l,
   r == r' /\ g == g' /\ b == b'.
 Proof. exact hls_is_css3. Qed.
 Print Assumptions hsl_algorithm_is_css3.
+
+(* the same for any hue the author wrote (480, -120, 30.5 ...): colorsys reduces it modulo 1 as CSS3 4.2.4 says *)
+Theorem hsl_any_hue_is_css3 : forall h sat l,
+  let '(r, g, b) := hls_to_rgb h l sat in let '(r', g', b') := css3_hsl (qmod1 h) sat l in
+  r == r' /\ g == g' /\ b == b'.
+Proof. exact hls_any_hue_is_css3. Qed.
+Print Assumptions hsl_any_hue_is_css3.
+
+(* what the model of hsl() carries: the exact reals r*255, g*255, b*255 of that algorithm *)
+Theorem hsl_fn_exact_stage : forall dbl h sat l,
+  fn_color dbl (s "hsl(") [CNum h; CPct sat; CPct l] =
+  let '(r, g, b) := hls_to_rgb (pyq h / inject_Z 360) (pyq l / inject_Z 100) (pyq sat / inject_Z 100) in
+  FRgba (r * inject_Z 255) (g * inject_Z 255) (b * inject_Z 255) 1 false.
+Proof. exact hsl_fn_model. Qed.
+Print Assumptions hsl_fn_exact_stage.
+
+(* DESIGN hsl_fn_spec, rounding stage: the code rounds a binary64 evaluation x of r*255 with int(round(x)); if x is
+   within delta of the exact X = 255 * (CSS3 component), the reported integer is within 1/2 + delta of X.
+   The binary64 stage itself (about 20 operations of colorsys) is NOT analysed in Coq: delta <= 10^-9 is the stated
+   bound, measured on every hsl case by the harness (hsl_binary64_delta_max in the evidence). *)
+Theorem hsl_fn_spec : forall x X delta,
+  Qabs (x - X) <= delta -> Qabs (inject_Z (rhe x) - X) <= (1 # 2) + delta.
+Proof. exact hsl_round_stage. Qed.
+Print Assumptions hsl_fn_spec.
+
+(* rgb() percentages: what int(255 * p / 100) is, as a function of the written percentage.
+   integer p: floor of the exact value, or the next integer when the one binary64 division rounded up to it; so the
+   reported component differs from the CSS3 real 255p/100 by less than 1 (the oracle's tolerance) *)
+Theorem rgb_pct_int_spec : forall z,
+  (0 <= z <= 10 ^ 12)%Z ->
+  let x := inject_Z (255 * z) / inject_Z 100 in
+  exists t, pct255 dbl_exec (PyInt z) = inject_Z t /\
+    (Qfloor x <= t)%Z /\ inject_Z t <= x + x * eps53 + tiny /\ Qabs (inject_Z t - x) < 1.
+Proof.
+  intros z Hz x. exists (qtrunc (dbl_exec x)). split; [exact (pct255_int z)|]. exact (pct_int_spec z Hz).
+Qed.
+Print Assumptions rgb_pct_int_spec.
+
+(* fractional p: the stored binary64 value v, two more roundings, truncation: within 1 + 2^-51 * w of w = 255v/100 *)
+Theorem rgb_pct_float_spec : forall v,
+  0 <= v -> v <= inject_Z (10 ^ 12) ->
+  let w := inject_Z 255 * v / inject_Z 100 in
+  let t := pct255 dbl_exec (PyFloat v) in
+  w - 1 - w * (1 # 2251799813685248) - tiny * (3 # 1) < t /\ t <= w + w * (1 # 2251799813685248) + tiny * (3 # 1).
+Proof. exact pct_float_spec. Qed.
+Print Assumptions rgb_pct_float_spec.
 
 Example hex_examples :
   color_of_hash (s "#fb0") = Rgba (255, 187, 0)%Z 1 /\ color_of_hash (s "#0A0ad2") = Rgba (10, 10, 210)%Z 1 /\
